@@ -4,6 +4,8 @@
 //        pool         : ThreadPoolExecutor with 1-2 workers
 //        fault-inline : InplaceExecutor behind a fault injector (invoke fails per a PRNG bit-string)
 //        fault-pool   : ThreadPoolExecutor behind the same injector
+//        stall-inline | stall-pool : directed — producer A parked between index claim and publish for >= 1200
+//                       consumer polls while B publishes + signals behind it and a third thread joins
 // Every run: 1-3 producer threads with programs of execute / signal_push_event / join calls on one
 // ConcurrentExecutionQueue<uint64_t> of capacity hint 1-4; the main thread may join() concurrently and
 // always joins at the end (after recovering refused launches).
@@ -247,11 +249,136 @@ static void run_one(uint64_t seed, const std::string& mode) {
   vrt_dump(stdout);
 }
 
+// ---------------------------------------------------------------------------------------------
+// Directed modes stall-inline / stall-pool: producer A is parked between claiming its queue index and
+// publishing its slot (the item type's copy assignment — which execute(const T&) runs exactly there —
+// blocks for STALL_MS virtual milliseconds, one usleep(1000) at a time, so the consumer gets at least
+// one poll per millisecond: >= STALL_MS polls, far beyond any plausible bounded spin).  Meanwhile
+// producer B pushes behind it, publishes and signals, and a third thread joins once B's execute()
+// has returned.  The join oracle must hold: B's item is consumed when join() returns.
+static int g_stall_ms = 0;          // remaining virtual ms the next slow assignment blocks
+static bool g_in_assign = false;    // A is parked between index claim and publish
+struct SlowItem {
+  uint64_t id = 0;
+  SlowItem() = default;
+  explicit SlowItem(uint64_t i) : id(i) {}
+  SlowItem(const SlowItem&) = default;
+  SlowItem& operator=(const SlowItem& o) {
+    if (o.id == 100 && g_stall_ms > 0) {
+      g_in_assign = true;
+      vrt_event("stall_begin");
+      while (g_stall_ms > 0) {
+        --g_stall_ms;
+        usleep(1000);
+      }
+      vrt_event("stall_end");
+      g_in_assign = false;
+    }
+    id = o.id;
+    return *this;
+  }
+};
+static_assert(sizeof(SlowItem) == sizeof(uint64_t), "slot layout must match the uint64_t queue the translator probes");
+
+static void run_stall(uint64_t seed, const std::string& mode) {
+  using QS = ConcurrentExecutionQueue<SlowItem>;
+  constexpr int STALL_MS = 1200;
+  Rng rng(seed);
+  bool use_pool = mode.find("pool") != std::string::npos;
+  size_t cap_hint = 2 + rng.below(3);
+  bool b_joins_itself = rng.below(2) == 0;
+  Oracle orc;
+  QS q;
+  ThreadPoolExecutor pool;
+  TestExecutor ex;
+  ex.orc = &orc;
+  ex.is_inline = !use_pool;
+  ex.inner = use_pool ? static_cast<Executor*>(&pool) : static_cast<Executor*>(&InplaceExecutor::instance());
+  q.initialize(cap_hint, ex, [&](QS::Iterator begin, QS::Iterator end) {
+    vrt_event("cb_begin %zd", (ssize_t)(end - begin));
+    if (orc.in_cb++ != 0) vrt_event("ORACLE overlap consume function entered while another invocation is running");
+    for (auto it = begin; it != end; ++it) {
+      uint64_t id = it->id;
+      vrt_event("consume %lu", (unsigned long)id);
+      if (!orc.submitted.count(id)) vrt_event("ORACLE invented item %lu was never submitted", (unsigned long)id);
+      if (!orc.consumed.insert(id).second) vrt_event("ORACLE dup item %lu delivered twice", (unsigned long)id);
+    }
+    --orc.in_cb;
+    vrt_event("cb_end");
+  });
+  size_t cap = q.capacity();
+  vrt_unname_all();
+  vrt_name(&q._events, sizeof(q._events), "events");
+  vrt_name(&q._queue._next_push_index, sizeof(size_t), "pushidx");
+  vrt_name(&q._queue._next_pop_index, sizeof(size_t), "popidx");
+  vrt_name(&q._queue._slots.futex(0), (cap - 1) * sizeof(QS::Queue::Slot) + sizeof(uint32_t), "slot");
+  auto do_join = [&](const char* kind) {
+    std::set<uint64_t> snap = orc.returned;
+    vrt_event("join_begin");
+    q.join();
+    vrt_event("join_end");
+    for (uint64_t id : snap)
+      if (!orc.consumed.count(id)) {
+        vrt_event("ORACLE %s join() returned but item %lu, whose execute() returned before the join began, is not consumed "
+                  "(producer of an earlier index parked between index claim and publish: %s)",
+                  kind, (unsigned long)id, g_in_assign ? "yes" : "no");
+        break;
+      }
+  };
+  auto do_execute = [&](uint64_t id) {
+    SlowItem item(id);
+    orc.submitted.insert(id);
+    vrt_event("push %lu", (unsigned long)id);
+    int rc = q.execute(item);
+    vrt_event("ret execute %d", rc);
+    orc.returned.insert(id);
+  };
+  g_stall_ms = STALL_MS;
+  g_in_assign = false;
+  bool b_returned = false;
+  vrt_yield_time(1);
+  vrt_begin(seed);
+  printf("RUN %lu cap=%zu mode=%s prods=2 workers=%d stall_ms=%d bjoins=%d\n", (unsigned long)seed, cap, mode.c_str(), use_pool ? 1 : 0,
+         STALL_MS, (int)b_joins_itself);
+  if (use_pool) {
+    pool.set_worker_number(1);
+    pool.set_global_capacity(8);
+    pool.start();
+  }
+  std::thread a([&] { do_execute(100); });
+  while (!g_in_assign) usleep(100);
+  std::thread b([&] {
+    do_execute(200);
+    b_returned = true;
+    if (b_joins_itself) do_join("join-early");
+  });
+  std::thread j([&] {
+    while (!b_returned) usleep(100);
+    do_join("join-early");
+  });
+  a.join();
+  b.join();
+  j.join();
+  do_join("join-early-quiescent");
+  for (uint64_t id : orc.submitted)
+    if (!orc.consumed.count(id)) {
+      vrt_event("ORACLE lost item %lu was never delivered", (unsigned long)id);
+      break;
+    }
+  if (use_pool) pool.stop();
+  vrt_event("stats steps %lu switches %lu refusals_injected 0", vrt_steps(), vrt_switches());
+  vrt_end();
+  vrt_dump(stdout);
+}
+
 int main(int argc, char** argv) {
   std::string mode = argc > 1 ? argv[1] : "inline";
   uint64_t seed0 = argc > 2 ? strtoull(argv[2], 0, 10) : 1;
   int nruns = argc > 3 ? atoi(argv[3]) : 1;
-  if (mode != "inline" && mode != "pool" && mode != "fault-inline" && mode != "fault-pool") return 2;
-  for (int i = 0; i < nruns; ++i) run_one(seed0 + i, mode);
+  bool stall = mode == "stall-inline" || mode == "stall-pool";
+  if (!stall && mode != "inline" && mode != "pool" && mode != "fault-inline" && mode != "fault-pool") return 2;
+  for (int i = 0; i < nruns; ++i) {
+    if (stall) run_stall(seed0 + i, mode); else run_one(seed0 + i, mode);
+  }
   return 0;
 }
